@@ -338,6 +338,9 @@ func (db *ContractDB) parseLines(p *packages.Package, file string, lines []srcLi
 				head = head[:j]
 			}
 			ac.Callee = head
+			if strings.HasPrefix(head, "recv ") {
+				ac.Callee = "recv:" + strings.TrimSpace(strings.TrimPrefix(head, "recv "))
+			}
 			if first == "at" && strings.HasPrefix(body, "ghost ") {
 				// at call X#k: ghost name[i][j] = e
 				g := strings.TrimSpace(strings.TrimPrefix(body, "ghost"))
